@@ -4,7 +4,7 @@
   Proved: on ANY byte string, for ANY schema, the checked byte-slice decoder does not panic (every read is
   covered by a length check, and every cursor jump `at += Size()` / `at += length prefix` stays inside
   the buffer — the invariant is that a decoder that returns a value has advanced by at least Size() of
-  it).  The stream decoder has no unchecked access at all: every read goes through io.ReadFull, and the
+  it, where Size() is the generated one, `gsize`, which does not count the fields marked deprecated).  The stream decoder has no unchecked access at all: every read goes through io.ReadFull, and the
   model is a total function of the stream.
   NOT proved (observed by the harness, listed findings): the memory requested by make() from an
   unchecked count, and loops whose length is a count of zero-size elements (DESIGN §8 #4, #5).
@@ -25,9 +25,11 @@ theorem C07_nested_never_panics (env : Env) (fuel : Nat) (ty : Ty) (buf : List B
   have := (dec_adv_all env fuel).1 ty buf
   intro h; rw [h] at this; exact this
 
-/-- and whenever it returns a value, the bytes it consumed cover that value's Size(). -/
+/-- and whenever it returns a value, the bytes it consumed cover that value's Size() — the generated
+    `Size()`, `gsize env ty`, which skips deprecated fields (a decoded value may hold some: the bytes
+    consumed then exceed `Size()`, they are never fewer). -/
 theorem C07_advance_covers_size (env : Env) (fuel : Nat) (ty : Ty) (buf rest : List Byte) (v : Val)
-    (h : dec fuel env true ty buf = .ok (v, rest)) : rest.length + vsize v ≤ buf.length := by
+    (h : dec fuel env true ty buf = .ok (v, rest)) : rest.length + gsize env ty v ≤ buf.length := by
   have := (dec_adv_all env fuel).1 ty buf
   rw [h] at this; exact this
 
